@@ -138,9 +138,10 @@ class InterfaceLDM3:
         self.logging.debug(
             "Registring LDM Data Provider with application id %d", data_provider.application_id)
         if data_provider.application_id in self.ldm_service.get_data_provider_its_aid():
-            self.ldm_service.del_data_provider_its_aid(
-                data_provider.application_id)
-            return DeregisterDataProviderResp(data_provider.application_id, DeregisterDataProviderAck(0))
+            # Only the caller that actually removed the registration reports success
+            if self.ldm_service.del_data_provider_its_aid(
+                    data_provider.application_id) is not False:
+                return DeregisterDataProviderResp(data_provider.application_id, DeregisterDataProviderAck(0))
         return DeregisterDataProviderResp(data_provider.application_id, DeregisterDataProviderAck(1))
 
     def add_provider_data(self, data_provider: AddDataProviderReq) -> AddDataProviderResp:
